@@ -192,6 +192,68 @@ def bk_cone(P):
     return sorted(out, key=lambda b: b.key)
 
 
+def valuation_precedence(P, chk):
+    """a posting's balancing value is its lot price, else its cost, else its own amount - decided by Option-ness only"""
+    b = P.body(BK + "::ComputedPosting::calculate_balance_amount")
+    chk.analysed(b)
+    exs = [(bb, t) for bb, t in b.calls() if (callee_def(t) or "").endswith("Exchange::exchange")]
+    ok = len(exs) == 1
+    detail = "expected exactly one Exchange::exchange call, found %d" % len(exs)
+    if ok:
+        bb, t = exs[0]
+        recv = prov(b, t["args"][0])
+        ok = len(recv) == 1
+        detail = "the exchange applied can be any of %s (not simply lot-else-cost)" % sorted(mir.show_root(x) for x in recv)
+        if ok:
+            r = next(iter(recv))
+            ok = r.kind == "call" and r.name == "std::option::Option::or" and r.site is not None and r.fields[:2] == ("#Some", "0")
+            detail = "the exchange applied is %s" % sorted(mir.show_root(x) for x in recv)
+            if ok:
+                ot = b.term(r.site)
+                a0 = prov(b, ot["args"][0])
+                a1 = prov(b, ot["args"][1])
+                ok = bool(a0) and all(q.is_param(x, "self", ("lot",)) for x in a0) and bool(a1) and all(q.is_param(x, "self", ("cost",)) for x in a1)
+                detail = "Option::or(%s, %s)" % (sorted(mir.show_root(x) for x in a0), sorted(mir.show_root(x) for x in a1))
+                # no other decision than Some/None of that value (and the `?` of the amount conversion) selects the result
+                extra = []
+                for s_ in sorted(b.live_blocks()):
+                    ds = mir.describe_switch(b, s_)
+                    if not ds or tables_is_flag(ds):
+                        continue
+                    kind, subject, labels = ds
+                    if kind == "variant" and all(x.kind == "call" and x.site == r.site for x in subject):
+                        continue
+                    if kind == "variant" and set(sum((list(v) for v in labels.values()), [])) <= {"Continue", "Break"}:
+                        continue
+                    extra.append("%s at %s" % (kind, b.loc(s_)))
+                if extra:
+                    ok = False
+                    detail = "the choice between lot price, cost and own amount also depends on %s" % extra
+                amt = q.chains(b, t["args"][1])
+                ok = ok and bool(amt) and all(q.is_param(x, "self", ("amount",)) and set(n.rsplit("::", 1)[-1] for n in cn) <= {"try_into", "into", "try_from"}
+                                              for cn, x in amt)
+        # the None arm returns the own amount
+        none_ok = False
+        for bb2, v, rv in q.ok_err_assignments(b):
+            if v == "Ok":
+                rs = prov(b, rv["fields"][0]["op"])
+                if rs and all(q.is_param(x, "self", ("amount",)) and not x.via for x in rs):
+                    g = [labs for roots, labs in q.variant_guards(b, bb2)]
+                    none_ok = ("None",) in g
+        ok = ok and none_ok
+    chk.require(ok, R_ACC, "calculate_balance_amount|lot price, else cost, else own amount", b.loc(), detail,
+                "self.lot.as_ref().or(self.cost.as_ref()) -> Some(x) => x.exchange(amount), None => amount")
+
+
+def tables_is_flag(ds):
+    kind, subject, labels = ds
+    if kind == "const":
+        return True
+    if kind in ("bool", "int"):
+        return bool(subject) and all(r.kind == "const" for r in subject)
+    return False
+
+
 def rounding_precision(P, chk):
     """Amount::round rounds each commodity's value to the precision stored for that same commodity"""
     cands = [b for k, b in P.bodies.items() if k.endswith("eval::amount::Amount::round_mut") or k.endswith("eval::amount::Amount::round")]
@@ -244,6 +306,7 @@ def run(P, chk, tier):
     chk.rule(C12.R_DECL, "a commodity's `format` (its rounding precision) is stored for the commodity being declared (shared with C12)")
     C12.format_target(P, chk)
     rounding_precision(P, chk)
+    valuation_precedence(P, chk)
     table = common.load_table("err_chain.toml")
     entries = {e["key"]: e for e in table.get("site", [])}
     used = set()
